@@ -109,7 +109,22 @@ let cmd_rfdecode r =
   let sh = if rd_bool r then RfRegular (rd_z r) else RfTimes (rd_q r) in
   tok_of_q (decode_rf_tlast raster sh) ^ " " ^ tok_of_q (decode_rf_shape_dur raster sh)
 
+(* history of one object's block tables: ops = S k d | R n (k d)* *)
+let rd_op r = match next r with
+  | "S" -> let k = rd_z r in let d = rd_q r in OpSet (k, d)
+  | "R" -> OpRead (rd_list (fun r -> let k = rd_z r in let d = rd_q r in (k, d)) r)
+  | s -> failwith ("bad op " ^ s)
+let cmd_tables r =
+  let ops = rd_list rd_op r in
+  let st = tl_run ops in
+  String.concat " | " [
+    pr_list tok_of_z st.tl_keys;
+    pr_list (fun (k, d) -> tok_of_z k ^ " " ^ tok_of_q d) st.tl_durs;
+    pr_opt tok_of_q (tl_duration st);
+    tok_of_q (tl_sum st) ]
+
 let () =
+  Driver.register "timing.tables" cmd_tables;
   Driver.register "timing.tr" cmd_tr;
   Driver.register "timing.counts" cmd_counts;
   Driver.register "timing.rfdecode" cmd_rfdecode;
